@@ -220,7 +220,7 @@ class _ReadSourceGenerator:
 
         yield from flush()
 
-        if self.align:
+        if self.align and self.fields:
             yield f"stream.seek(-stream.tell() & (cls.alignment - 1), {io.SEEK_CUR})"
 
     def _generate_structure(self, field: Field) -> Iterator[str]:
